@@ -39,6 +39,7 @@ def run(ctx):
     ctx.rule("R7.removal-authority", "RawOpaquePool::remove / remove_unpin callers are the table of unique-handle Drop, into_inner and Remover Drop impls (plus the raw/blind forwarding wrappers)", floor=10)
     ctx.rule("R10.drop-policy-provenance", "every slab is created with the owning pool's slab_layout and drop_policy fields; every pool constructor/builder hands the configured policy on unchanged", floor=5)
     ctx.rule("R11.lowest-vacancy-cache", "the vacancy cache always names the LOWEST slab with a vacancy: a new vacancy below the cached index (or with no cached index) replaces it - the refill search after a slab fills only looks forward", floor=2)
+    ctx.rule("R12.counts-are-not-positions", "no slab index, slab/slot scan bound or iterator cursor derives from an object count (RawOpaquePool::length, Slab::count): holes make counts useless as positions", floor=10)
     ctx.rule("R9.shrink-keeps-live", "shrink_to_fit only drops trailing EMPTY slabs (a non-empty slab dropped = objects destroyed while handles exist); same rule as C01.R3", floor=1, shape_dependent=True)
     ctx.rule("R8.slab-drop", "Slab::drop: emptiness read first; every slot dropped under catch_unwind in a loop over 0..capacity; dealloc on every path before resume_unwind/policy assert", floor=4)
 
@@ -241,25 +242,7 @@ def run(ctx):
         ctx.ob("R4.pool-length", f"RawOpaquePool::{name}", ok, b.loc(), det)
 
     # ---------------- R5 vacancy
-    for fname in ("reserve", "shrink_to_fit", "allocate_slab_for_insert"):
-        b = prog.one(f"opaque::pool_raw::RawOpaquePool::{fname}")
-        if b is None:
-            ctx.missing("R5.vacancy", f"RawOpaquePool::{fname}")
-            continue
-        ctx.fn(b)
-        mut = [(bb, t) for bb, t in b.calls() if callee_key(t["callee"]).split("::")[-1] in ("push", "extend", "truncate", "pop", "resize_with", "extend_from_slice", "append", "insert", "remove", "clear", "drain", "resize", "swap_remove", "split_off", "retain")
-               and "Vec" in callee_key(t["callee"]) and "Slab" in t["callee"]["full"]]
-        usc = calls_to(b, "vacancy_tracker::VacancyTracker::update_slab_count")
-        ok = bool(mut) and bool(usc)
-        for mbb, _ in mut:
-            okp, off = b.must_pass(b.term_succ(mbb, False), [u for u, _ in usc], b.exits(("return",)))
-            ok = ok and okp
-        # argument = slabs.len()
-        for ubb, ut in usc:
-            sl = Slice(b).run(ut["args"][1])
-            ok = ok and any(k.endswith("Vec::len") for k, _, _ in sl["calls"]) and "infinity_pool::opaque::pool_raw::RawOpaquePool::slabs" in sl["fields"]
-        ctx.ob("R5.vacancy", f"{fname}.update_slab_count", ok, b.loc(),
-               f"slab-vector mutations {[callee_key(t['callee']).split('::')[-1] for _, t in mut]} are each followed on every path by update_slab_count(slabs.len())")
+    slab_vector_pairing(ctx, prog, "R5.vacancy", ("reserve", "shrink_to_fit", "allocate_slab_for_insert"))
     for name in ("insert_with_unchecked", "remove", "remove_unpin"):
         b = pool_bodies.get(name)
         if b is None:
@@ -421,6 +404,7 @@ def run(ctx):
     shrink_rule(ctx, prog, "R9.shrink-keeps-live")
     policy_rules(ctx, prog)
     vacancy_cache_rules(ctx, prog)
+    counts_are_not_positions(ctx, prog, "R12.counts-are-not-positions")
 
     # ---------------- R8 Slab::drop
     sd = prog.one("<infinity_pool::opaque::slab::Slab as std::ops::Drop>::drop")
@@ -642,3 +626,109 @@ def vacancy_cache_rules(ctx, prog):
     ctx.ob(RID, "new-vacancy.lower-replaces", lower_arm and not bad, b.loc(),
            f"has_vacancy arm stores Some(slab_index) when slab_index < cached index: {lower_arm}; refill search is forward-only (slab_index+1..): {fwd}"
            + (f"; {bad}" if bad else ""))
+
+
+# ------------------------------------------------------------------ R12: an object count is not a position
+COUNT_FIELDS = ("RawOpaquePool::length", "Slab::count")
+COUNT_CALLS = ("RawOpaquePool::len", "Slab::len", "RawOpaquePool::is_empty", "Slab::is_empty")
+SLAB_INDEXERS = ("get", "get_mut", "get_unchecked", "get_unchecked_mut", "index", "index_mut", "truncate", "split_off", "swap_remove", "remove")
+
+
+def _count_taint(prog, b, op, depth=3):
+    """Names of object-count sources in the data slice of `op` (local callees' return values followed, bounded)."""
+    sl = Slice(b, through_calls=False).run(op)
+    out = [f.split("::", 3)[-1] for f in sl["fields"] if f.endswith(COUNT_FIELDS)]
+    for k, _bb, t in sl["calls"]:
+        if k.endswith(COUNT_CALLS):
+            out.append(k.split("::", 3)[-1] + "()")
+            continue
+        cb = prog.body_for_callee(t["callee"])
+        if cb is not None and depth > 0 and cb.crate == b.crate:
+            out += _count_taint(prog, cb, {"k": "copy", "place": {"l": 0, "p": []}}, depth - 1)
+        else:
+            # library plumbing (wrapping_sub, div_ceil, min, ...): follow the arguments
+            for a in t["args"]:
+                if a.get("k") != "const":
+                    out += [x for x in _count_taint(prog, b, a, depth - 1)] if depth > 0 else []
+    return sorted(set(out))
+
+
+def counts_are_not_positions(ctx, prog, rid):
+    """Slabs and slots have holes: how many objects exist says nothing about where they are. No slab index, scan bound
+    or iterator cursor may derive from RawOpaquePool::length / Slab::count."""
+    n = 0
+    for b in prog.bodies:
+        if not (b.key.startswith("infinity_pool::opaque::pool_raw::") or b.key.startswith("infinity_pool::opaque::slab::") or
+                b.key.startswith("<infinity_pool::opaque::")):
+            continue
+        if "::tests::" in b.key:
+            continue
+        sinks = []
+        for bb, t in b.calls():
+            m = t["callee"].get("method")
+            if m in SLAB_INDEXERS and len(t["args"]) >= 2:
+                _r, fs = op_access_path(b, t["args"][0])
+                if fs and fs[-1].endswith("RawOpaquePool::slabs"):
+                    sinks.append((f"slabs.{m}", t["args"][1], t["span"]))
+        for blk in b.blocks:
+            if blk.cleanup:
+                continue
+            for s in blk.stmts:
+                if s["k"] == "assign" and s["rv"]["k"] == "aggr":
+                    adt = s["rv"].get("adt") or ""
+                    if adt.endswith("ops::Range") or adt.endswith("ops::RangeInclusive"):
+                        for i, o in enumerate(s["rv"]["ops"]):
+                            sinks.append((f"range.{('start', 'end')[i] if i < 2 else i}", o, s["span"]))
+                    elif adt.startswith("infinity_pool::opaque::") and adt.endswith("Iterator"):
+                        a = prog.adts.get(adt)
+                        names = [f["name"] for f in a["variants"][0]["fields"]] if a else []
+                        for nm, o in zip(names, s["rv"]["ops"]):
+                            if "index" in nm:
+                                sinks.append((f"{adt.split('::')[-1]}.{nm}", o, s["span"]))
+        if not sinks:
+            continue
+        ctx.fn(b)
+        for what, op, span in sinks:
+            if op.get("k") == "const":
+                continue
+            taint = _count_taint(prog, b, op)
+            n += 1
+            ctx.ob(rid, f"{b.key.replace('infinity_pool::opaque::', '')}:{what}", not taint, b.loc(span),
+                   f"position derives from an object count: {taint}" if taint else "position does not derive from an object count")
+    if n == 0:
+        ctx.missing(rid, "slab index / scan bound / iterator cursor sites in infinity_pool::opaque")
+
+
+def slab_vector_pairing(ctx, prog, rid, fnames):
+    """Every change of the slab vector's length is followed, inside the same function and on every path, by
+    update_slab_count(slabs.len()): the slab vector and the vacancy tracker never disagree across a call boundary."""
+    for fname in ("reserve", "shrink_to_fit", "allocate_slab_for_insert"):
+        b = prog.one(f"opaque::pool_raw::RawOpaquePool::{fname}")
+        if b is None:
+            ctx.missing(rid, f"RawOpaquePool::{fname}")
+            continue
+        ctx.fn(b)
+        mut = [(bb, t) for bb, t in b.calls() if callee_key(t["callee"]).split("::")[-1] in ("push", "extend", "truncate", "pop", "resize_with", "extend_from_slice", "append", "insert", "remove", "clear", "drain", "resize", "swap_remove", "split_off", "retain")
+               and "Vec" in callee_key(t["callee"]) and "Slab" in t["callee"]["full"]]
+        usc = calls_to(b, "vacancy_tracker::VacancyTracker::update_slab_count")
+        ok = bool(mut) and bool(usc)
+        for mbb, _ in mut:
+            okp, off = b.must_pass(b.term_succ(mbb, False), [u for u, _ in usc], b.exits(("return",)))
+            ok = ok and okp
+        # argument = slabs.len()
+        for ubb, ut in usc:
+            sl = Slice(b).run(ut["args"][1])
+            ok = ok and any(k.endswith("Vec::len") for k, _, _ in sl["calls"]) and "infinity_pool::opaque::pool_raw::RawOpaquePool::slabs" in sl["fields"]
+        ctx.ob(rid, f"{fname}.update_slab_count", ok, b.loc(),
+               f"slab-vector mutations {[callee_key(t['callee']).split('::')[-1] for _, t in mut]} are each followed on every path by update_slab_count(slabs.len())")
+
+    # ---------------- rules shared with the sibling properties anchored in the same functions
+    ctx.import_rules("C01", {
+        "R2.slab-vector": "handles store slab_index: a re-ordered slab vector makes remove() destroy a different object",
+        "R9.vacancy-block-writes": "a vacancy block overwritten wholesale marks full slabs vacant; the next insert overwrites a live object without destroying it",
+        "R7.vacancy-resize-contract": "same: new bitmap blocks must start all-vacant and old ones stay untouched",
+    })
+    ctx.import_rules("C04", {
+        "R4.restore-before-destroy": "a destructor that panics after part of the bookkeeping leaves len() and the slot tags disagreeing",
+        "R3.before-ok-premise": "a slab pushed without telling the vacancy tracker is lost to accounting when the initialiser panics",
+    })
